@@ -152,9 +152,22 @@ VarsInDef(ns, d) == UNION {VarsOfNode(ns[i]) : i \in {j \in Ids(ns) : DefOf(ns, 
 VarsUsedBy(ns, op) == VarsInDef(ns, op) \cup UNION {VarsInDef(ns, f) : f \in FragIdsOf(ns, Reach(ns, op))}
 
 FieldIds(ns) == {i \in Ids(ns) : ns[i].k = "F"}
+\* response keys of the field ancestors of node i inside its definition
+RECURSIVE AncKeys(_, _)
+AncKeys(ns, i) == IF ns[i].parent = 0 THEN <<>>
+                  ELSE LET p == ns[i].parent IN
+                       IF ns[p].k = "F" THEN Append(AncKeys(ns, p), Key(ns[p])) ELSE AncKeys(ns, p)
+\* can the two field nodes end up in the same merged selection set?  Exact for nodes of operations (same
+\* operation and same chain of parent response keys); conservative (TRUE) as soon as a fragment definition is involved.
+MayMerge(ns, i, j) ==
+  LET di == DefOf(ns, i)
+      dj == DefOf(ns, j) IN
+  IF ns[di].k = "OP" /\ ns[dj].k = "OP" THEN di = dj /\ AncKeys(ns, i) = AncKeys(ns, j) ELSE TRUE
+\* FieldsInSetCanMerge, sufficient form: fields that may merge under one response key have the same name,
+\* the same arguments and the same declared type (so sub-selections merge recursively under the same rule)
 Mergeable(ns) ==
   \A i, j \in FieldIds(ns) :
-     (i < j /\ Key(ns[i]) = Key(ns[j])) =>
+     (i < j /\ Key(ns[i]) = Key(ns[j]) /\ MayMerge(ns, i, j)) =>
         /\ ns[i].name = ns[j].name
         /\ ns[i].args = ns[j].args
         /\ FieldDef(ns[i].ptype, ns[i].name).type = FieldDef(ns[j].ptype, ns[j].name).type
